@@ -2,6 +2,7 @@ import SynapModel.Proto
 import SynapModel.Drv.Tensor
 import SynapModel.Generated.KernelFormulas
 import SynapModel.Generated.OptimSteps
+import SynapModel.Generated.EngineLogic
 import SynapModel.Drv.Optim
 /-! driver commands for the generated formulas (`gf <kernel> <floats>`): the definitions `harness/formulas.py` wrote from
     `cpu_ops.py` on this run, executed at `Float`, so that the TRANSLATION is validated against the real kernels on every run;
@@ -18,6 +19,17 @@ def runStep : List String → String
       | none => "bad-op"
       | some (rx, ro, rn) => showFloatList rx ++ "|" ++ showList (showOpt showFloat) ro ++ "|" ++ showNatList rn
     | _, _, _, _ => "bad-op"
+  | _ => "bad-op"
+
+/-- `ge <condition> <atoms 0/1 in signature order>` -> 0/1 : a generated condition of `Generated/EngineLogic.lean` on one row of its truth table;
+    `ge skeleton traversal|sweep` -> the statement skeleton -/
+def runCond : List String → String
+  | ["skeleton", "traversal"] => " ; ".intercalate Gen.Engine.traversalSkeleton
+  | ["skeleton", "sweep"] => " ; ".intercalate Gen.Engine.sweepSkeleton
+  | [name, xs] =>
+    match parseList? parseBool? xs with
+    | none => "bad-op"
+    | some v => match Gen.Engine.evalCond name v with | none => "bad-op" | some b => showBool b
   | _ => "bad-op"
 
 def run : List String → String
